@@ -226,7 +226,9 @@ def conv_gen(g):
         g["data"] = [{"src": s, "tgts": list(t)} for s, t in g["data"]]
     if "rule" in g:
         g["rule"] = norm_rule(g["rule"])
-    if g["kind"].startswith("q"):
+    if g["kind"] in ("qpages", "qcrawled"):
+        g = {"kind": "qpages", "ps": list(g["ps"]), "oc": g["kind"] == "qcrawled"}
+    elif g["kind"].startswith("q"):
         g = {"kind": "query"}
     return g
 
